@@ -67,6 +67,9 @@ structure ReadOK (st : Store) (fn : FileNode) (p : Ptr) (want : Nat) (r : ReadRe
   eof_iff : r.err = IOErr.eof ↔
     (p.off ≥ fn.size ∨ (p.off + r.data.length = fn.size ∧ r.data.length < want))
   progress : r.err = IOErr.ok → 0 < want → 0 < r.data.length
+  /-- exactly which prefix: up to the end of the segment that holds the offset -/
+  exact : p.off < fn.size → ∃ i s o, fn.segs[i]? = some s ∧ o < s.len ∧
+    sumLen (fn.segs.take i) + o = p.off ∧ r.data.length = min want (s.len - o)
 
 theorem readAt_spec {fn : FileNode} {p : Ptr} (hwf : WF max hash st fn) (hp : PtrOK fn p) (want : Nat) :
     ∃ r, readAt st fn p want = some r ∧ ReadOK st fn p want r := by
@@ -79,7 +82,7 @@ theorem readAt_spec {fn : FileNode} {p : Ptr} (hwf : WF max hash st fn) (hp : Pt
     simp only [hnone]
     rw [if_pos (by omega)]
     refine ⟨_, rfl, ?_⟩
-    refine ⟨by simp [specRead], by simp, by simp [hoff], ?_, by simp, ?_, by simp⟩
+    refine ⟨by simp [specRead], by simp, by simp [hoff], ?_, by simp, ?_, by simp, fun h => by omega⟩
     · exact ⟨by rw [hrep]; exact Int.le_refl _, fun _ => Or.inl (by rw [hoff]; exact hge)⟩
     · simp; exact Or.inl hge
   · have hswf := hwf.segs s (mem_of_getElem? hs)
@@ -126,7 +129,7 @@ theorem readAt_spec {fn : FileNode} {p : Ptr} (hwf : WF max hash st fn) (hp : Pt
       by_cases hend : q.segOff + d.length = s.len
       · rw [if_pos hend]
         have hwant : want ≥ s.len - q.segOff := by rw [hdlen] at hend; omega
-        refine ⟨_, rfl, ⟨?_, ?_, ?_, ?_, ?_, ?_, ?_⟩⟩ <;> dsimp only
+        refine ⟨_, rfl, ⟨?_, ?_, ?_, ?_, ?_, ?_, ?_, ?_⟩⟩ <;> dsimp only
         · exact hdata
         · rw [hdlen]; omega
         · omega
@@ -159,11 +162,12 @@ theorem readAt_spec {fn : FileNode} {p : Ptr} (hwf : WF max hash st fn) (hp : Pt
               · omega
               · rw [if_pos (by omega)]
         · intro _ _; exact hd0
+        · exact fun _ => ⟨q.segIdx, s, q.segOff, hs, hso, hsum, hdlen⟩
       · rw [if_neg hend]
         have hwant : want < s.len - q.segOff := by rw [hdlen] at hend; omega
         have hdw : d.length = want := by rw [hdlen]; omega
         have hsz2 : sumLen (fn.segs.take q.segIdx) + s.len ≤ fn.size := by omega
-        refine ⟨_, rfl, ⟨?_, ?_, ?_, ?_, ?_, ?_, ?_⟩⟩ <;> dsimp only
+        refine ⟨_, rfl, ⟨?_, ?_, ?_, ?_, ?_, ?_, ?_, ?_⟩⟩ <;> dsimp only
         · exact hdata
         · omega
         · omega
@@ -175,10 +179,11 @@ theorem readAt_spec {fn : FileNode} {p : Ptr} (hwf : WF max hash st fn) (hp : Pt
           · intro h; cases h
           · rintro (h | ⟨h, h2⟩) <;> omega
         · intro _ _; exact hd0
+        · exact fun _ => ⟨q.segIdx, s, q.segOff, hs, hso, hsum, hdlen⟩
     · rw [if_neg hd0]
       have hw0 : want = 0 := by rw [hdlen] at hd0; omega
       have hdl : d.length = 0 := by omega
-      refine ⟨_, rfl, ⟨?_, ?_, ?_, ?_, ?_, ?_, ?_⟩⟩ <;> dsimp only
+      refine ⟨_, rfl, ⟨?_, ?_, ?_, ?_, ?_, ?_, ?_, ?_⟩⟩ <;> dsimp only
       · exact hdata
       · omega
       · omega
@@ -189,5 +194,6 @@ theorem readAt_spec {fn : FileNode} {p : Ptr} (hwf : WF max hash st fn) (hp : Pt
         · intro h; cases h
         · rintro (h | ⟨h, h2⟩) <;> omega
       · intro _ h; omega
+      · exact fun _ => ⟨q.segIdx, s, q.segOff, hs, hso, hsum, hdlen⟩
 
 end ArvVerif.C08
